@@ -13,7 +13,7 @@ mod sexp;
 mod swap;
 mod types;
 
-use gen::{gen_val, sequences, BorrowHistory, GrowThen, LimitGen, NearLimit, RandGen};
+use gen::{coincidence_case, gen_val, sequences, BorrowHistory, GrowThen, LimitGen, NearLimit, RandGen};
 use hx_common::{Args, Recorder, Rng};
 use run::{parse_header, CaseOut, Cx, FixedOps, OpSource, Prop};
 use sexp::{parse_path, print_path, Shape, Step, Val};
@@ -39,7 +39,8 @@ impl Runner<'_> {
                     (e.run_swap_acct)(header, &hdr, src, &mut self.cx)
                 } else if hdr.swap {
                     (e.run_swap)(header, &hdr, src, &mut self.cx)
-                } else if hdr.account && self.cx.prop == Prop::C03 {
+                } else if hdr.account {
+                    // C03 first, now every property: `impl UnsizedTypeDataAccess for AccountInfo` under the wrappers
                     self.cx.rec.bump("backing:account");
                     (e.run_acct)(header, &hdr, src, &mut self.cx)
                 } else {
@@ -214,6 +215,45 @@ fn node_paths(shape: &Shape, val: &Val, prefix: &mut Vec<Step>, depth: usize, ou
         }
         _ => {}
     }
+}
+
+/// "address coincidence" cases (gen.rs `coincidence_case`) for every ulist / umap reachable through struct
+/// fields of every curated type; `prefix` distinguishes plain (`co-`) from account-backed (`acct-co-`) ids.
+fn coincidence_cases(runner: &mut Runner, rng: &mut Rng, prefix: &str, variants: usize, suffix: &str) -> u64 {
+    fn containers(sh: &Shape, path: &mut Vec<Step>, out: &mut Vec<(Vec<Step>, Shape)>) {
+        match sh {
+            Shape::UList(_) | Shape::UMap(..) => out.push((path.clone(), sh.clone())),
+            Shape::Struct(_, fs) => {
+                for (i, f) in fs.iter().enumerate() {
+                    path.push(Step::Field(i));
+                    containers(f, path, out);
+                    path.pop();
+                }
+            }
+            _ => {}
+        }
+    }
+    let reg = runner.reg;
+    let mut n = 0;
+    for e in reg.iter() {
+        let mut cs = vec![];
+        containers(&e.shape, &mut vec![], &mut cs);
+        for (path, cont) in cs {
+            for variant in 0..variants {
+                let Some((init, lines)) = coincidence_case(&cont, &path, variant, rng) else { continue };
+                let mut top = e.shape.default_val();
+                match sexp::nav(&e.shape, &mut top, &path) {
+                    sexp::Nav::Found(_, v) => *v = init,
+                    _ => continue,
+                }
+                let header = format!("case {prefix}{}-{}-{variant} {} {}{suffix}", e.id, print_path(&path).replace('.', "_"), e.shape_s, top.print());
+                runner.cx.rec.bump("source:address_coincidence");
+                runner.run(&header, &mut FixedOps { lines, pos: 0 });
+                n += 1;
+            }
+        }
+    }
+    n
 }
 
 /// C03 case generation: guard-page layouts, sizes 0/1, growth limit, refusals, swap enumeration.
@@ -619,6 +659,17 @@ fn main() {
                 }
             }
             extra.insert("exhaustive_sequences".into(), serde_json::json!(nseq));
+            // ---- 3b. address coincidence: a cached element pointer must not be mistaken for another element
+            let nco = coincidence_cases(&mut runner, &mut rng, "co-", if thorough { 8 } else { 8 }, "");
+            let nco_acct = coincidence_cases(&mut runner, &mut rng, "acct-co-", 2, "");
+            extra.insert("address_coincidence_cases".into(), serde_json::json!(nco + nco_acct));
+            // ---- 3c. account-backed growth-limit scripts (real runtime refusal, same wrapper afterwards)
+            for (i, (tid, path)) in LIMITS.iter().enumerate() {
+                let e = reg.iter().find(|e| e.id == *tid).unwrap();
+                let header = format!("case acct-limit{i}-{tid} {} {}", e.shape_s, e.shape.default_val().print());
+                runner.cx.rec.bump("source:account_limit");
+                runner.run(&header, &mut LimitGen { path: parse_path(path).unwrap(), step: 0, two_phase: i % 2 == 1, keep_wrapper: true });
+            }
             // ---- 4. random boundary-directed histories
             let ncases = if thorough { 30_000 } else { 400 };
             for i in 0..ncases {
@@ -660,6 +711,29 @@ fn main() {
                 reruns += runner.refusal_reruns(&base, if thorough { 40 } else { 24 });
             }
             extra.insert("refusal_reruns".into(), serde_json::json!(reruns));
+            // ---- native-account backing: the refusal is the REAL runtime limit (orig + 10240) of
+            //      `AccountInfo::resize_unchecked`, and the SAME wrapper keeps being used afterwards: every
+            //      later op (grow again, pop, remove(0), set_len, …) is compared with the owned model
+            let mut nacct = 0u64;
+            let rounds = if thorough { 12 } else { 2 };
+            for round in 0..rounds {
+                for (i, (tid, path)) in LIMITS.iter().enumerate() {
+                    let e = reg.iter().find(|e| e.id == *tid).unwrap();
+                    let two_phase = round % 2 == 1;
+                    let v = if round == 0 { e.shape.default_val() } else { gen_val(&e.shape, &mut rng, 0) };
+                    let header = format!("case acct-limit{i}-{round}-{tid} {} {}", e.shape_s, v.print());
+                    runner.cx.rec.bump("source:account_limit");
+                    runner.run(&header, &mut LimitGen { path: parse_path(path).unwrap(), step: 0, two_phase, keep_wrapper: true });
+                    let v = gen_val(&e.shape, &mut rng, 0);
+                    let header = format!("case acct-near{i}-{round}-{tid} {} {}", e.shape_s, v.print());
+                    runner.cx.rec.bump("source:account_near_limit");
+                    let delta = rng.below(6) as usize;
+                    let inner = RandGen::new(rng.fork(), 12 + rng.below(14) as usize);
+                    runner.run(&header, &mut NearLimit { path: parse_path(path).unwrap(), delta, done: false, inner });
+                    nacct += 2;
+                }
+            }
+            extra.insert("account_backed_cases".into(), serde_json::json!(nacct));
         }
     }
     extra.insert("cases_by_shape".into(), serde_json::json!(runner.cases_by_shape));
